@@ -31,6 +31,31 @@ func init() {
 					items = append(items, Item{ID: fmt.Sprintf("%s/H=%d", mc.ID(), H), Run: func(c *Ctx) { c06(c, mc, H) }})
 				}
 			}
+			// a failed Encode (body with a text too long for its prefix) must leave nothing behind that a later
+			// Encode of another message picks up (staging buffers, pools, caches filled on the error path)
+			for _, mod := range modules {
+				ms := c.sc.Mods[mod]
+				for _, tn := range ms.TypeNames() {
+					bf := ms.Types[tn].BodyField()
+					if bf == nil {
+						continue
+					}
+					for k, en := range ms.Tables[bf.Table].Entries {
+						bt := ms.Types[en[1].(string)]
+						// the last such field: everything in front of it has been written when the refusal comes
+						last := -1
+						for fi, f := range bt.Fields {
+							if f.Kind == "pstr" && typeWidth(f.Prefix) <= 16 {
+								last = fi
+							}
+						}
+						if last >= 0 {
+							mod, tn, k, fi := mod, tn, k, last
+							items = append(items, Item{ID: fmt.Sprintf("afterfail:%s.%s/key=%d/%s", mod, tn, k, bt.Fields[last].Go), Run: func(c *Ctx) { c06afterFail(c, mod, tn, k, fi) }})
+						}
+					}
+				}
+			}
 			return items
 		}}
 	drivers["C07"] = &Driver{Prop: "C07", Level: "model_checking",
@@ -620,6 +645,95 @@ func c07primList(c *Ctx, p primInst, n int) {
 			rest := unread(rs.heap[h.bufID])
 			c.Prove(rs, "exact-consumption", And(Eq(rest.Len, CI(2)), Eq(rest.At(CI(0)), t0), Eq(rest.At(CI(1)), t1)), mk("the bytes after the list are not left exactly as they were"))
 			c.Witness(rs, "list round trip", func(val func(*Term) uint64) any { return map[string]any{"fn": p.Name, "n": n} })
+		}
+	}
+}
+
+
+// c06afterFail: Encode(M2) -> A; Encode(M1) fails (a body text too long for its prefix, after earlier body fields
+// were written); Encode(M2 again, another object with the same content) into an empty buffer must give A.
+func c06afterFail(c *Ctx, mod, tn string, key, fi int) {
+	mc := MsgCase{Mod: mod, Typ: tn, Key: key}
+	h := c.newHarness(mc, "canon", 0)
+	e := c.e()
+	s := h.s
+	ts := c.sc.Mods[mod].Types[tn]
+	bf := ts.BodyField()
+	bi := -1
+	for i := range ts.Fields {
+		if ts.Fields[i].Go == bf.Go {
+			bi = i
+		}
+	}
+	if bi < 0 || h.m.F[bi] == nil || h.m.F[bi].K != 'o' {
+		c.Inconclusive("body value not found")
+		return
+	}
+	bts := c.sc.Mods[mod].Types[h.m.F[bi].Typ]
+	f := bts.Fields[fi]
+	// M2 twice (same content, two objects), before anything runs
+	m2 := h.g.Object(s, mod, tn, ".second")
+	pA, pB := h.g.MaterializePtr(s, m2), h.g.MaterializePtr(s, m2)
+	// M1: the harness value with the over-long text
+	n := int(prefixMax(f.Prefix)) + 1
+	h.m.F[bi].F[fi] = &SVal{K: 's', S: RepeatByte(C(8, 'x'), CI(int64(n))), SMax: n}
+	p1 := h.g.MaterializePtr(s, h.m)
+	bufA := s.newObj(&Obj{Kind: kBuffer, B: EmptyBytes(), R: CI(0)})
+	buf1 := s.newObj(&Obj{Kind: kBuffer, B: EmptyBytes(), R: CI(0)})
+	bufB := s.newObj(&Obj{Kind: kBuffer, B: EmptyBytes(), R: CI(0)})
+	steps := func(val func(*Term) uint64) []map[string]any {
+		v2 := h.g.Concretize(m2, val)
+		v1 := h.g.Concretize(h.m, val).(map[string]any)
+		if b, ok := v1[bf.Go].(map[string]any); ok {
+			b[f.Go] = map[string]any{"$hex": strings.Repeat("78", n)}
+		}
+		return []map[string]any{
+			step("op", "newbuf", "buf", "a", "hex", ""), step("op", "newmsg", "msg", "ma", "module", mod, "type", tn, "value", v2), step("op", "encode", "msg", "ma", "buf", "a"),
+			step("op", "newbuf", "buf", "f", "hex", ""), step("op", "newmsg", "msg", "m1", "module", mod, "type", tn, "value", v1), step("op", "encode", "msg", "m1", "buf", "f"),
+			step("op", "newbuf", "buf", "b", "hex", ""), step("op", "newmsg", "msg", "mb", "module", mod, "type", tn, "value", v2), step("op", "encode", "msg", "mb", "buf", "b"),
+		}
+	}
+	judge := Judge{Kind: "same_as_step", Step: 8, Step2: 2}
+	e.pushCall(s, h.enc, []Value{pA, &Ptr{Obj: bufA}}, nil)
+	for _, f1 := range e.Run(s) {
+		if c.PathProblem(f1, "Encode", nil) || !encOK(h, f1) {
+			continue
+		}
+		A := unread(f1.heap[bufA])
+		f1.frames = nil
+		e.pushCall(f1, h.enc, []Value{p1, &Ptr{Obj: buf1}}, nil)
+		failed := 0
+		for _, f2 := range e.Run(f1) {
+			if c.PathProblem(f2, "Encode(too long)", nil) || encOK(h, f2) {
+				continue // (C17 / C18 report panics and accepted over-long values)
+			}
+			failed++
+			f2.frames = nil
+			e.pushCall(f2, h.enc, []Value{pB, &Ptr{Obj: bufB}}, nil)
+			for _, f3 := range e.Run(f2) {
+				if c.PathProblem(f3, "Encode after a failed Encode", func(val func(*Term) uint64, msg string) *Violation {
+					return &Violation{Obligation: "after-failure:no-panic", Detail: "Encode panics after an earlier Encode failed: " + msg, Replay: &ReplayReq{Steps: steps(val), Judge: Judge{Kind: "panic"}}}
+				}) {
+					continue
+				}
+				mk := func(what string) func(val func(*Term) uint64) *Violation {
+					return func(val func(*Term) uint64) *Violation {
+						return &Violation{Detail: what, Replay: &ReplayReq{Steps: steps(val), Judge: judge}}
+					}
+				}
+				if !encOK(h, f3) {
+					c.Prove(f3, "after-failure:succeeds", False, mk("Encode of a valid message fails after an earlier Encode of another message failed"))
+					continue
+				}
+				Bb := unread(f3.heap[bufB])
+				if c.Prove(f3, "after-failure:length", Eq(Bb.Len, A.Len), mk("after a failed Encode of another message, Encode emits a different number of bytes")) {
+					c.Prove(f3, "after-failure:bytes", regionGoal(Bb, A, CI(0), A.Len, 600), mk("after a failed Encode of another message, Encode emits different bytes"))
+				}
+				c.Witness(f3, "encode, failed encode, encode", nil)
+			}
+		}
+		if failed == 0 {
+			c.res.Vacuous = append(c.res.Vacuous, "the over-long body is not refused on any path (C18's subject): nothing to check after a failure")
 		}
 	}
 }
